@@ -19,3 +19,6 @@ REG['C18'] = check_c18.run
 
 from . import check_macros
 REG['C17'] = check_macros.run
+
+from . import check_c12
+REG['C12'] = check_c12.run
